@@ -63,6 +63,23 @@ let ctx () = match !ctx_cache with
 let set_state s = cur := s; ctx_cache := None
 
 let mstate : string mstate option ref = ref None
+(* MM: the state the mutator mirror expects the next MAPSTATE dump to show, with the tag of the check *)
+let mm_pending : (string * string mstate) option ref = ref None
+(* a dumped / computed map state as a comparable value: the maps as sorted sets *)
+let canon_mstate (m : string mstate) =
+  (List.sort compare (List.map (fun (p, (h, r)) -> (string_of_n p, hex_of h, r)) m.ms_nodes),
+   List.sort compare (List.map (fun (h, p) -> (hex_of h, string_of_n p)) m.ms_cached),
+   string_of_n m.ms_n, string_of_n m.ms_total, m.ms_full)
+let mm_diff (e : string mstate) (g : string mstate) : string =
+  let (en, ec, n1, t1, f1) = canon_mstate e and (gn, gc, n2, t2, f2) = canon_mstate g in
+  let show_n (p, h, r) = p ^ ":" ^ String.sub h 0 8 ^ ":" ^ b01 r in
+  let show_c (h, p) = String.sub h 0 8 ^ ":" ^ p in
+  let minus a b = List.filter (fun x -> not (List.mem x b)) a in
+  let cut l = String.concat "," (List.filteri (fun i _ -> i < 12) l) in
+  Printf.sprintf "model: n=%s total=%s full=%s | impl: n=%s total=%s full=%s | nodes only-model=[%s] only-impl=[%s] | cached only-model=[%s] only-impl=[%s]"
+    n1 t1 (b01 f1) n2 t2 (b01 f2)
+    (cut (List.map show_n (minus en gn))) (cut (List.map show_n (minus gn en)))
+    (cut (List.map show_c (minus ec gc))) (cut (List.map show_c (minus gc ec)))
 let checks = ref 0
 let fails = ref 0
 let lineno = ref 0
@@ -149,7 +166,11 @@ let handle (toks : string list) =
   match toks with
   | [] -> ()
   | "#" :: _ -> ()
-  | ["CASE"; id] -> case_id := id
+  | ["CASE"; id] ->
+    (match !mm_pending with
+     | Some (tag, _) -> mm_pending := None; fail "harness" tag "no MAPSTATE (post-state) after the MM event"
+     | None -> ());
+    case_id := id
   | ["SHA"; inp; out] ->
     check "selftest" "sha" (String.equal (Sha.sha512_256 (unhex inp)) (unhex out)) (fun () -> "sha512_256 mismatch")
   | ["RESET"] -> set_state []; stack := []; blocks := []
@@ -368,7 +389,13 @@ let handle (toks : string list) =
         | [p; h; r] -> (n_of_string p, (unhex h, r = "1")) | _ -> failwith "node") (split_list nodes) in
     let cl = List.map (fun e -> match String.split_on_char ':' e with
         | [h; p] -> (unhex h, n_of_string p) | _ -> failwith "cached") (split_list cached) in
-    mstate := Some { ms_nodes = nl; ms_cached = cl; ms_n = n_of_string n; ms_total = n_of_string total; ms_full = (full = "1") }
+    let dumped = { ms_nodes = nl; ms_cached = cl; ms_n = n_of_string n; ms_total = n_of_string total; ms_full = (full = "1") } in
+    (match !mm_pending with
+     | Some (tag, e) ->
+       mm_pending := None;
+       check "mirror" tag (canon_mstate e = canon_mstate dumped) (fun () -> mm_diff e dumped)
+     | None -> ());
+    mstate := Some dumped
   (* MR label fn args = result : mirror of the MapPollard read side on the dumped state *)
   | "MR" :: label :: fn :: rest ->
     (match !mstate with
@@ -432,6 +459,44 @@ let handle (toks : string list) =
         | _ -> "unknown-fn") with Failure x -> "EXC:" ^ x | Invalid_argument x -> "EXC:" ^ x) in
     check "mirror" ("PU." ^ fn) (String.equal exp got)
       (fun () -> Printf.sprintf "args=%s model=%s impl=%s" (String.concat " " args) exp got)
+  (* MM label op args = ok|err|panic : mirror of the MapPollard mutators (Model/MapMut.v).  The pre-state is the
+     state of the last MAPSTATE event; the post-state is the NEXT MAPSTATE event (compared as sets).
+     Modify adds(hash:remember,..) delHashes targets proof
+     Undo   numAdds targets proof hashes prevRoots
+     Verify delHashes targets proof        (remember = true)
+     Ingest delHashes targets proof
+     Prune  hashes *)
+  | "MM" :: label :: op :: rest ->
+    (match !mm_pending with
+     | Some (tag, _) -> mm_pending := None; fail "harness" tag "no MAPSTATE (post-state) after the MM event"
+     | None -> ());
+    (match !mstate with
+     | None -> fail "harness" "MM" "no MAPSTATE"
+     | Some m ->
+       let rec split acc = function
+         | "=" :: r -> (List.rev acc, r) | x :: r -> split (x :: acc) r | [] -> (List.rev acc, []) in
+       let (args, res) = split [] rest in
+       let got = String.concat " " res in
+       let a i = List.nth args i in
+       let leaves_of s = List.map (fun e -> match String.split_on_char ':' e with
+           | [h; r] -> (unhex h, r = "1") | _ -> failwith ("bad leaf " ^ e)) (split_list s) in
+       let tag = "MM." ^ op in
+       let exp = (try (match op with
+           | "Modify" -> Some (mm_modify ops m (leaves_of (a 0)) (hashes_of (a 1)) (ns_of (a 2)) (hashes_of (a 3)))
+           | "Undo" -> Some (mm_undo ops m (n_of_string (a 0)) (ns_of (a 1)) (hashes_of (a 2)) (hashes_of (a 3)) (hashes_of (a 4)))
+           | "Verify" -> Some (mm_verify_remember ops m (hashes_of (a 0)) (ns_of (a 1)) (hashes_of (a 2)))
+           | "Ingest" -> Some (mm_ingest ops m (hashes_of (a 0)) (ns_of (a 1)) (hashes_of (a 2)))
+           | "Prune" -> Some (mm_prune ops m (hashes_of (a 0)))
+           | _ -> None) with Failure _ | Invalid_argument _ -> None) in
+       (match exp, got with
+        | None, _ -> fail "harness" tag ("label=" ^ label ^ " malformed MM event")
+        | Some (Some e), "ok" -> mm_pending := Some (tag, e)
+        | Some None, "ok" ->
+          check "mirror" tag false (fun () -> Printf.sprintf "label=%s model=err impl=ok args=%s" label (String.concat " " args))
+        | Some r, ("err" | "panic") ->
+          (* the implementation may have applied a part of the operation: the dump that follows is not compared *)
+          check "mirror" tag (r = None) (fun () -> Printf.sprintf "label=%s model=ok impl=%s args=%s" label got (String.concat " " args))
+        | Some _, _ -> fail "harness" tag ("label=" ^ label ^ " result is not ok/err/panic: " ^ got)))
   | ["EQ"; label; a; b] ->
     check "prop" ("EQ." ^ label) (String.equal a b) (fun () -> Printf.sprintf "a=%s b=%s" a b)
   | t :: _ -> fail "harness" t "unknown event"
